@@ -54,6 +54,7 @@ type PathResult struct {
 	Notes    []string
 	NAsserts int
 	RandN    int
+	Seeded   bool // draws modelled as functions of the generator state (seeded-rand)
 	Weight   string // probability mode: exact probability of the path (rational)
 	Output   string
 }
@@ -241,7 +242,7 @@ func (w *Worker) RunPath(h *ssa.Function, prefix []Decision, concrete map[string
 	res := &PathResult{
 		Status: end.st, Msg: end.msg, Trace: ps.trace, Inputs: ps.inputs, Observe: ps.observe,
 		Reached: sortedKeys(ps.reached), Known: sortedKeys(ps.known), Steps: ps.steps, PCSize: len(ps.pc),
-		Notes: ps.notes, NAsserts: ps.nAsserts, RandN: ps.nrand,
+		Notes: ps.notes, NAsserts: ps.nAsserts, RandN: ps.nrand, Seeded: ps.seededRand,
 	}
 	if ps.probMode && end.st == StOK && !ps.isConcrete {
 		wgt, why := ps.pathWeight()
